@@ -52,3 +52,43 @@ func GoID() int64 {
 	}
 	return id
 }
+
+// ParkedInAll counts goroutines (in any of the given states; none = any state except running) whose stack contains
+// every one of the given function-name fragments.
+func ParkedInAll(fns []string, states ...string) int {
+	buf := make([]byte, 1<<20)
+	n := runtime.Stack(buf, true)
+	for n == len(buf) && len(buf) < 64<<20 {
+		buf = make([]byte, 2*len(buf))
+		n = runtime.Stack(buf, true)
+	}
+	cnt := 0
+	for _, g := range strings.Split(string(buf[:n]), "\n\n") {
+		nl := strings.IndexByte(g, '\n')
+		if nl < 0 {
+			continue
+		}
+		head, body := g[:nl], g[nl:]
+		all := true
+		for _, fn := range fns {
+			if !strings.Contains(body, fn) {
+				all = false
+				break
+			}
+		}
+		if !all || strings.Contains(head, "[running") {
+			continue
+		}
+		if len(states) == 0 {
+			cnt++
+			continue
+		}
+		for _, st := range states {
+			if strings.Contains(head, "["+st) {
+				cnt++
+				break
+			}
+		}
+	}
+	return cnt
+}
